@@ -78,3 +78,19 @@ extern "C" int cpp_encrypt_ctor(int family, int alg, const unsigned char *key, c
 extern "C" int cpp_decrypt_ctor(int family, int alg, const unsigned char *key, const unsigned char *nonce,
                 unsigned char *m, const unsigned char *c, size_t clen, const unsigned char *ad, size_t adlen)
 { DISPATCH_CTOR(dec_c1, dec_c2, nonce, m, c, clen, ad, adlen) }
+
+/* re-keying a used object: another full-length key first, then the wanted key (given as a zero-length key when it is all-zero, which is what length 0 means) */
+static const unsigned char OTHER[20] = {0xC3, 0x5A, 0xC3, 0x5A, 0xC3, 0x5A, 0xC3, 0x5A, 0xC3, 0x5A, 0xC3, 0x5A, 0xC3, 0x5A, 0xC3, 0x5A, 0xC3, 0x5A, 0xC3, 0x5A};
+template <class T> static int enc_rk(const unsigned char *key, size_t klen, const unsigned char *nonce,
+    unsigned char *c, const unsigned char *m, size_t mlen, const unsigned char *ad, size_t adlen)
+{
+    T obj; unsigned char tmp[64]; bool zero = true; for (size_t i = 0; i < klen; i++) if (key[i]) zero = false;
+    if (!obj.set_key(OTHER, klen)) return -1000;
+    obj.set_nonce(OTHER, 16); obj.encrypt(tmp, OTHER, 9, 0, 0);
+    if (!(zero ? obj.set_key(key, 0) : obj.set_key(key, klen))) return -1001;
+    obj.set_nonce(nonce, 16);
+    return obj.encrypt(c, m, mlen, ad, adlen);
+}
+extern "C" int cpp_encrypt_rekey(int family, int alg, const unsigned char *key, const unsigned char *nonce,
+                unsigned char *c, const unsigned char *m, size_t mlen, const unsigned char *ad, size_t adlen)
+{ DISPATCH(enc_rk, nonce, c, m, mlen, ad, adlen) }
